@@ -192,6 +192,33 @@ def nnxRemoveAxis (k : Int) (nm : Name) (sharding : Option Names) : Except Err (
   | none => .ok none
   | some ns => (removeAxis k nm ns).map some
 
+/-! ### `flax.nnx.bridge.variables.NNXMeta`: an NNX Variable carried through Linen as a box -/
+
+/-- `NNXMeta.add_axis` **as shipped** (finding F17): a TODO no-op -/
+def nnxMetaAddAxisOrig (_k : Int) (_params : Option Name) (sharding : Option Names) :
+    Except Err (Option Names) := .ok sharding
+
+/-- `NNXMeta.add_axis` after the repair: `metadata['sharding']` is updated like `Partitioned.names`
+(partition name looked up in `metadata_params`); a box without a `sharding` entry is left untouched -/
+def nnxMetaAddAxis (k : Int) (params : Option Name) (sharding : Option Names) :
+    Except Err (Option Names) :=
+  match sharding with
+  | none => .ok none
+  | some ns =>
+    match params with
+    | none => .error .unspecified
+    | some nm => .ok (some (addAxis k nm ns))
+
+/-- `NNXMeta.remove_axis` after the repair -/
+def nnxMetaRemoveAxis (k : Int) (params : Option Name) (sharding : Option Names) :
+    Except Err (Option Names) :=
+  match sharding with
+  | none => .ok none
+  | some ns =>
+    match params with
+    | none => .error .unspecified
+    | some nm => (removeAxis k nm ns).map some
+
 /-! ### lifted vmap / scan (Linen `lift.vmap` / `lift.scan`, NNX `VmapFn` / `ScanFn`) -/
 
 /-- one transform level: the variable axis, the partition name given in `metadata_params` /
